@@ -260,7 +260,7 @@ func (cr *checkRun) generateAndSolve() {
 	sort.Strings(keys)
 	for _, k := range keys {
 		ct := specs.Contracts[k]
-		if ct.Kind != "func" || ct.Trusted {
+		if ct.Kind != "func" || (ct.Trusted && ct.Opts["verify"] != "callsites") {
 			continue
 		}
 		serves := hasProp(ct.Props, prop) || hasProp(ct.FrameProps, prop)
@@ -293,7 +293,7 @@ func (cr *checkRun) generateAndSolve() {
 		for _, k := range used {
 			uc := w.usedContracts[k]
 			rep.Used = append(rep.Used, k)
-			if uc.Kind == "func" && !uc.Trusted && !seen[uc] {
+			if uc.Kind == "func" && (!uc.Trusted || uc.Opts["verify"] == "callsites") && !seen[uc] {
 				seen[uc] = true
 				queue = append(queue, uc)
 			}
